@@ -30,6 +30,7 @@ struct vt {
 	void *ret;
 	int rid, rank;
 	int last_site, last_stage;
+	int joined, by_spawn;
 	uint64_t prng;
 };
 
@@ -393,6 +394,8 @@ static int spawn_common(void *(*fn)(void *), void *arg, int rid_hint)
 	vts[id].rank = my_rank;
 	vts[id].prng = cfg.seed * 31 + (uint64_t)id * 0x9e3779b97f4a7c15ULL;
 	vts[id].last_site = vts[id].last_stage = 0;
+	vts[id].joined = 0;
+	vts[id].by_spawn = rid_hint == -1;
 	sem_init(&vts[id].sem, 0, 0);
 	nvt = id + 1;
 	pthread_attr_t at;
@@ -430,7 +433,9 @@ static void join_id(int id, void **ret)
 		}
 		vts[me].st = ST_RUNNABLE;
 	}
-	pthread_join(vts[id].pt, NULL);
+	if(!vts[id].joined)
+		pthread_join(vts[id].pt, NULL);
+	vts[id].joined = 1;
 	if(ret)
 		*ret = vts[id].ret;
 }
@@ -454,8 +459,10 @@ int rsv_spawn(void *(*fn)(void *), void *arg)
 static int joined_upto = 1;
 void rsv_join_all(void)
 {
-	for(int i = joined_upto; i < nvt; i++)
-		join_id(i, NULL);
+	/* only the threads started by the harness itself; the core joins its own workers */
+	for(int i = 1; i < nvt; i++)
+		if(vts[i].by_spawn && !vts[i].joined)
+			join_id(i, NULL);
 	joined_upto = nvt;
 }
 
